@@ -193,16 +193,11 @@ Section NewHolder.
       { intros q Hq Gq. rewrite nh_get; [exact Gq|]. intros ->. congruence. }
       scase s y.
       + inversion G; subst h; cbn. destruct Hok as [(Hl & E & Nd & St)|(Sp & Ep & t & E & K & Dt)].
-        * rewrite (nh_par_s Hl), E. split; [|intros o []]. intros q Hq. destruct (St q Hq) as [Q1 Q2]. apply Pres; assumption.
+        * rewrite (nh_par_s Hl), E. split; [|intros o X; discriminate X]. intros q Hq. destruct (St q Hq) as [Q1 Q2]. apply Pres; assumption.
         * split.
           -- intros q Hq. rewrite (a_par_span a' _ Sp) in Hq. destruct Hq.
-          -- intros o Ho Hst. apply Pres; [exact Hst|]. rewrite E in Ho. destruct Ho as [<-|Ho].
-             ++ unfold known in K. rewrite Hst in K. exact K.
-             ++ destruct (hget (holders a) t) as [ht|] eqn:Gt.
-                ** assert (Dh : h_dead ht = false) by (unfold a_dead in Dt; rewrite Gt in Dt; exact Dt).
-                   destruct (I_present c m a I t ht Gt Dh) as [_ P2]. apply P2; [|exact Hst].
-                   unfold a_chain in Ho. rewrite Gt in Ho. exact Ho.
-                ** unfold a_chain in Ho. rewrite Gt in Ho. destruct Ho.
+          -- intros o Ho Hst. apply Pres; [exact Hst|]. rewrite E in Ho. inversion Ho; subst o.
+             unfold known in K. rewrite Hst in K. exact K.
       + destruct (I_present c m a I y h G D) as [P1 P2]. rewrite nh_par by congruence. split.
         * intros q Hq. apply Pres; [apply (a_par_static a y q W Hq) | apply P1, Hq].
         * intros o Ho Hst. apply Pres; [exact Hst | apply (P2 o Ho Hst)].
